@@ -86,6 +86,20 @@ def option_lines(rng, p=0.12, skip=()):
     return lines
 
 
+def case_options(rng, ci, skip=(), others=True):
+    """option lines for case number ci of a driver: every second case runs with the defaults, the others flip ONE variable each,
+    round-robin over every variable of the library (so that each is covered whatever the seed), every 7th case a random pair more"""
+    if ci % 2 == 0:
+        return ""
+    pool = ["set %s %s" % (v, "off" if d else "on") for v, d in sorted(all_bool_vars().items()) if v not in skip]
+    if others:
+        pool += ["set %s %s" % (v, x) for v, vals in OTHER_SETTINGS if v not in skip for x in vals]
+    lines = [pool[(ci // 2) % len(pool)]]
+    if ci % 7 == 0:
+        lines += rng.sample(pool, 2)
+    return "\n".join(lines) + "\n"
+
+
 def random_inputrc(rng, mode, p=0.12):
     lines = []
     if mode == "vi":
